@@ -1,1 +1,2 @@
 import GfaGen.Cigar
+import GfaGen.Geometry
